@@ -42,16 +42,16 @@ class O:
     """One proof obligation: a harness function of a harness TU, with its bounds."""
     def __init__(self, name, tu, fn, unwind=2, unwindset=None, backend='sat', defs=(), cdefs=(), replace=None,
                  nsw=False, tiers='qt', timeout=None, flags=(), bound='', desc='', no_checks=False,
-                 usingz=False, known=None, object_bits=12, replay_sanitize=False, depth=None, olevel='O0', crosscheck=False, lift=(), expect_from=None, kind='cbmc', allow_globals=()):
+                 usingz=False, known=None, object_bits=12, replay_sanitize=False, depth=None, olevel='O0', crosscheck=False, lift=(), expect_from=None, kind='cbmc', allow_globals=(), no_free=False):
         self.name = name; self.tu = tu; self.fn = fn; self.unwind = unwind; self.unwindset = unwindset or []
         self.backend = backend if isinstance(backend, (list, tuple)) else [backend]
         self.defs = tuple(defs) + (('USINGZ',) if usingz else ()); self.cdefs = tuple(cdefs)
         self.replace = dict(replace or {}); self.nsw = nsw; self.tiers = tiers
         self.timeout = timeout; self.flags = list(flags); self.bound = bound; self.desc = desc
         self.no_checks = no_checks; self.known = known; self.object_bits = object_bits
-        self.replay_sanitize = replay_sanitize; self.depth = depth; self.olevel = olevel; self.crosscheck = crosscheck; self.lift = tuple(lift); self.expect_from = expect_from; self.kind = kind; self.allow_globals = tuple(allow_globals)
+        self.replay_sanitize = replay_sanitize; self.depth = depth; self.olevel = olevel; self.crosscheck = crosscheck; self.lift = tuple(lift); self.expect_from = expect_from; self.kind = kind; self.allow_globals = tuple(allow_globals); self.no_free = no_free
     def variant(self):
-        h = hashlib.sha1(repr((self.defs, sorted(self.replace.items()), self.nsw, self.olevel, self.lift)).encode()).hexdigest()[:8]
+        h = hashlib.sha1(repr((self.defs, sorted(self.replace.items()), self.nsw, self.olevel, self.lift, self.no_free)).encode()).hexdigest()[:8]
         return '%s-%s' % (os.path.splitext(self.tu)[0], h)
 
 def log(*a):
@@ -152,7 +152,7 @@ def build_variant(o):
         d = os.path.join(BUILD, v)
         os.makedirs(d, exist_ok=True)
         src = os.path.join(VERIF, 'harness', o.tu)
-        stamp = hashlib.sha1((src_hash() + file_hash([src]) + repr((o.defs, sorted(o.replace.items()), o.nsw, o.olevel, o.lift))).encode()).hexdigest()
+        stamp = hashlib.sha1((src_hash() + file_hash([src]) + repr((o.defs, sorted(o.replace.items()), o.nsw, o.olevel, o.lift, o.no_free))).encode()).hexdigest()
         info_path = os.path.join(d, 'info.json')
         if os.path.exists(info_path):
             try:
@@ -186,6 +186,7 @@ def build_variant(o):
         text = open(sll).read()
         cmd = [sys.executable, os.path.join(VF, 'ir2c.py'), sll, c, '--tu=' + o.tu]
         if o.nsw: cmd.append('--check-nsw')
+        if o.no_free: cmd.append('--no-free')
         lifted = []
         if o.lift:
             fnames = sorted(set(n.strip('"') for n in re.findall(r'^define [^@]*@("(?:[^"\\]|\\.)*"|[-a-zA-Z$._0-9]+)\(', text, re.M)))
